@@ -41,6 +41,9 @@ pub struct Profile {
     pub w_untraced: u32,
     pub max_ops: usize,
     pub max_objects_hint: usize,
+    /// weight of the *cluster idiom* (a generated sub-program that builds a small object graph
+    /// with relative selectors) among the program segments; the single operations weigh ~110
+    pub idiom: u32,
 }
 
 pub const GENERAL: Profile = Profile {
@@ -74,6 +77,7 @@ pub const GENERAL: Profile = Profile {
     w_untraced: 2,
     max_ops: 40,
     max_objects_hint: 12,
+    idiom: 4,
 };
 
 pub fn profile(name: &str) -> Profile {
@@ -82,14 +86,16 @@ pub fn profile(name: &str) -> Profile {
         "general" => g,
         // garbage of every shape, no faults; few weak/cleaner ops
         "garbage" => Profile { name: "garbage", new: 16, set_slot: 22, move_slot: 6, drop: 18, clone: 10, collect: 8, mark_alive: 4, upgrade: 3, downgrade: 3, try_unwrap: 3, register: 1, clean: 1, p_fin: 35, ..g },
-        "finalizers" => Profile { name: "finalizers", p_fin: 85, new: 16, set_slot: 20, drop: 18, collect: 10, finalize_again: 4, downgrade: 5, store_weak: 5, ..g },
-        "resurrection" => Profile { name: "resurrection", p_fin: 90, new: 16, set_slot: 20, drop: 18, collect: 10, downgrade: 6, store_weak: 8, new_cyclic: 6, upgrade: 6, ..g },
-        "weak" => Profile { name: "weak", downgrade: 10, weak_clone: 4, weak_drop: 6, upgrade: 12, store_weak: 10, clear_weak: 2, weak_new: 1, new_cyclic: 6, p_dq: 60, register: 4, clean: 3, try_unwrap: 4, ..g },
-        "counts" => Profile { name: "counts", new: 6, downgrade: 14, weak_clone: 10, weak_drop: 14, upgrade: 8, clone: 10, drop: 16, try_unwrap: 6, new_cyclic: 5, set_slot: 6, collect: 5, max_objects_hint: 4, ..g },
+        "finalizers" => Profile { name: "finalizers", idiom: 6, p_fin: 85, new: 16, set_slot: 20, drop: 18, collect: 10, finalize_again: 4, downgrade: 5, store_weak: 5, ..g },
+        "resurrection" => Profile { name: "resurrection", idiom: 7, p_fin: 90, new: 16, set_slot: 20, drop: 18, collect: 10, downgrade: 6, store_weak: 8, new_cyclic: 6, upgrade: 6, ..g },
+        "weak" => Profile { name: "weak", idiom: 7, downgrade: 10, weak_clone: 4, weak_drop: 6, upgrade: 12, store_weak: 10, clear_weak: 2, weak_new: 1, new_cyclic: 6, p_dq: 60, register: 4, clean: 3, try_unwrap: 4, ..g },
+        "counts" => Profile { name: "counts", idiom: 1, new: 6, downgrade: 14, weak_clone: 10, weak_drop: 14, upgrade: 8, clone: 10, drop: 16, try_unwrap: 6, new_cyclic: 5, set_slot: 6, collect: 5, max_objects_hint: 4, ..g },
         "cleaners" => Profile { name: "cleaners", register: 14, clean: 10, drop_cleanable: 4, new: 12, set_slot: 12, drop: 16, collect: 8, downgrade: 4, upgrade: 4, ..g },
         "nesting" => Profile { name: "nesting", p_fin: 85, register: 8, clean: 4, new_cyclic: 5, new: 14, set_slot: 16, drop: 18, collect: 8, try_unwrap: 3, finalize_again: 3, set_config: 2, ..g },
         "unwrap" => Profile { name: "unwrap", try_unwrap: 14, drop_loose: 6, clone: 12, drop: 14, downgrade: 6, upgrade: 5, new_cyclic: 5, collect: 6, ..g },
         "cyclic" => Profile { name: "cyclic", new_cyclic: 14, new: 10, set_config: 3, collect: 6, upgrade: 6, drop: 14, set_slot: 12, p_fin: 55, ..g },
+        // long histories: more objects, several collections and threshold adaptations per case
+        "long" => Profile { name: "long", max_ops: 160, collect: 6, new: 16, set_slot: 18, ..g },
         "counters" => Profile { name: "counters", clone: 12, drop: 16, mark_alive: 8, downgrade: 6, upgrade: 6, try_unwrap: 5, collect: 8, set_slot: 12, p_fin: 20, ..g },
         _ => g,
     }
@@ -217,13 +223,92 @@ fn kind() -> impl Strategy<Value = Kind> {
     ]
 }
 
+fn rel(op: Op) -> Op {
+    Op::Rel(Box::new(op))
+}
+
+/// The cluster idiom: a sub-program that creates `m` objects, links them with generated edges
+/// (rings, tails, shared nodes, self loops all arise), adds weak edges between members, optionally
+/// a cleaner action capturing a member, optionally a *helper* object that holds a `Weak` to one
+/// member and is owned by another member through a traced or the untraced slot, then releases
+/// some of the member handles and collects. All references use relative selectors (`Op::Rel`),
+/// so the structure is built as generated whatever else the program holds. It makes the deep
+/// shapes (a finalizer or destructor of an object owned by garbage upgrading a `Weak` to a peer
+/// of the same garbage set, ...) frequent instead of a coincidence of ten independent operations.
+fn cluster(p: &Profile) -> BoxedStrategy<Vec<Op>> {
+    (
+        (1usize..=5, prop::collection::vec(spec(p), 5), prop::collection::vec((any::<u8>(), any::<u8>(), slot(p)), 1..=8)),
+        prop::option::weighted(0.6, (spec(p), any::<u8>(), any::<u8>(), slot(p), any::<bool>(), prop::bool::weighted(0.7))),
+        prop::collection::vec((any::<u8>(), any::<u8>(), 0u8..2), 0..=2),
+        prop::option::weighted(0.25, (any::<u8>(), prop::collection::vec(act_op(), 0..=2), any::<u8>(), any::<bool>())),
+        (0usize..=5, 0u8..3),
+    )
+        .prop_map(|((m, specs, edges), helper, weak_edges, cleaner, (drops, collects))| {
+            let mut ops = Vec::new();
+            for s in specs.iter().take(m) {
+                ops.push(Op::New(s.clone()));
+            }
+            // member i is the (m-1-i)-th most recent handle
+            let ri = |i: u8| (m - 1 - (i as usize % m)) as u8;
+            for (a, b, s) in edges {
+                ops.push(rel(Op::SetSlot { h: ri(a), s, t: ri(b) }));
+            }
+            for (a, b, ws) in weak_edges {
+                ops.push(rel(Op::Downgrade(ri(a))));
+                ops.push(rel(Op::StoreWeak { h: ri(b), ws, w: 0 }));
+                ops.push(rel(Op::WeakDrop(0)));
+            }
+            if let Some((host, act, cap, weak_owner)) = cleaner {
+                ops.push(rel(Op::Register { h: ri(host), act, cap: Some(ri(cap)), weak_owner }));
+            }
+            if let Some((zs, k, j, s, drop_weak, by_move)) = helper {
+                ops.push(Op::New(zs));
+                // the helper is the newest handle now; member i is the (m-i)-th most recent one
+                let rj = |i: u8| (m - (i as usize % m)) as u8;
+                ops.push(rel(Op::Downgrade(rj(k))));
+                ops.push(rel(Op::StoreWeak { h: 0, ws: 0, w: 0 }));
+                if drop_weak {
+                    ops.push(rel(Op::WeakDrop(0)));
+                }
+                if by_move {
+                    ops.push(rel(Op::MoveSlot { h: rj(j), s, t: 0 }));
+                } else {
+                    ops.push(rel(Op::SetSlot { h: rj(j), s, t: 0 }));
+                    ops.push(rel(Op::Drop(0)));
+                }
+            }
+            for _ in 0..drops.min(m) {
+                ops.push(rel(Op::Drop(0)));
+            }
+            for _ in 0..collects {
+                ops.push(Op::Collect);
+            }
+            ops
+        })
+        .boxed()
+}
+
 pub fn case(p: &Profile, max_faults: usize) -> BoxedStrategy<(Case, Vec<FaultReq>)> {
     let max_ops = p.max_ops;
+    let single: u32 = 110;
+    let segment = if p.idiom > 0 {
+        prop_oneof![
+            single => op(p).prop_map(|o| vec![o]),
+            p.idiom => cluster(p),
+        ]
+        .boxed()
+    } else {
+        op(p).prop_map(|o| vec![o]).boxed()
+    };
     (
         prop::bool::weighted(0.6),
-        prop::collection::vec(op(p), 1..=max_ops),
+        prop::collection::vec(segment, 1..=max_ops),
         prop::collection::vec((kind(), any::<u16>()), 0..=max_faults),
     )
-        .prop_map(|(auto, ops, freq)| (Case { auto, ops, faults: Vec::new() }, freq))
+        .prop_map(move |(auto, segs, freq)| {
+            let mut ops: Vec<Op> = segs.into_iter().flatten().collect();
+            ops.truncate(max_ops + 24);
+            (Case { auto, ops, faults: Vec::new() }, freq)
+        })
         .boxed()
 }
